@@ -1,15 +1,42 @@
 PROPERTY = 'C05'
+PARTS = ['simple', 'auto', 'static', 'affinity']
 UNITS = {
   'range': dict(wrapper='w_range.cpp', mode='seq', selftest=True),
+  'range_w16': dict(wrapper='w_range.cpp', mode='seq', cxxflags=['-DVP_W=16']),
   'rvec': dict(wrapper='w_rvec.cpp', mode='seq', selftest=True, cxxflags=['-fno-rtti']),
-  'loop0': dict(wrapper='w_loop.cpp', mode='seq', cxxflags=['-DVP_PART=0', '-fno-rtti']),
-  'loop1': dict(wrapper='w_loop.cpp', mode='seq', cxxflags=['-DVP_PART=1', '-fno-rtti']),
-  'loop2': dict(wrapper='w_loop.cpp', mode='seq', cxxflags=['-DVP_PART=2', '-fno-rtti']),
-  'loop3': dict(wrapper='w_loop.cpp', mode='seq', cxxflags=['-DVP_PART=3', '-fno-rtti']),
 }
+for _i, _n in enumerate(PARTS):
+    UNITS['loop_' + _n] = dict(wrapper='w_loop.cpp', mode='seq', cxxflags=['-DVP_PART=%d' % _i, '-fno-rtti'])
+
+def _uw(part, K, P):
+    """per-loop unwinding bounds of the inlined start_for::execute (unwinding assertions are on: a bound that is too small makes
+    the query inconclusive, never a pass). Loop ids: simple/static: .0 execute's offer_work loop, .1 fold_tree;
+    auto/affinity: .0 offer_work loop, .1 split_to_fill, .2 work_balance, .3 ~range_vector, .4 fold_tree."""
+    maxc = (2 << K) + 2
+    if part in (0, 2):
+        us = 'vp_task_execute.0:%d,vp_task_execute.1:5' % (K + 2)
+    else:
+        us = 'vp_task_execute.0:%d,vp_task_execute.1:%d,vp_task_execute.2:%d,vp_task_execute.3:2,vp_task_execute.4:5' % (K + 2, K + 2, (1 << K) + K + 2)
+        us += ',vp_task_make.0:%d,vp_run.0:%d' % (16 * P + 2, 16 * P + 2)
+    return ['--unwind', str(maxc + 2), '--unwindset', us, '--object-bits', '12']
+
+def _step(part, kind, K, P, scen, tiers, timeout=1200):
+    n = PARTS[part]
+    return dict(name='taskstep_%s_%sK%d' % (n, kind, K) + ('_P%d' % P if P != 2 else ''), unit='loop_' + n, harness='h_loop.c',
+                defines={'PART': part, 'K': K, 'P': P}, scenarios=scen, tiers=tiers, timeout=timeout, mem_gb=8, cbmc=_uw(part, K, P),
+                desc=('task step lemma, %s_partitioner: ONE real start_for::execute from an arbitrary task/partition state satisfying the invariant (ROOT=0) '
+                      'or the root task built by the real parallel_for() (ROOT=2): body chunks + spawned ranges tile the task range, non-empty, disjoint; '
+                      'only divisible ranges are split; spawned partition states satisfy the invariant; proportions are (n-n/2,n/2)' % n),
+                bounds={'range': ('begin,end,grainsize symbolic 64-bit' if kind == 'wide' else 'begin and grainsize concrete per scenario (BFIX,GFIX), size symbolic') +
+                                 ', 1 <= size <= grainsize*2^%d' % K, 'max_concurrency': P,
+                        'partition state': 'any state satisfying INV (divisor, head, delay, max_depth 0..255 symbolic)', 'stolen/affinity/peer-stolen flags': 'symbolic',
+                        'tasks executed': 1})
+
+W, D = 'wide', 'deep'
+Q, T = ['quick', 'thorough'], ['thorough']
 HARNESSES = [
   dict(name='range1d', unit='range', harness='h_range1d.c', defines={'NMAX': '4294967296ul'},
-       scenarios=[{'TYPE': t, 'KIND': k} for t in (0, 1) for k in (0, 1)], timeout=600,
+       scenarios=[{'TYPE': t, 'KIND': k} for t in (0, 1) for k in (0, 1)], timeout=900,
        desc='blocked_range<size_t|int> split / proportional split: parts non-empty, adjacent, cover, grain kept; even split halves >= ceil(g/2)',
        bounds={'begin,end,grainsize': 'all 64-bit (int: all 32-bit with end-begin representable)', 'proportion': 'left=n-n/2,right=n/2 for every 2<=n<=2^32', 'loops': 'none'}),
   dict(name='rangend', unit='range', harness='h_rangend.c', defines={'NMAX': '4294967296ul', 'LIMIT': 64}, cbmc=['--unwind', '4'],
@@ -17,26 +44,97 @@ HARNESSES = [
                         {'SHAPE': 2, 'KIND': 1, 'NMAX': 3}, {'SHAPE': 4, 'KIND': 1, 'NMAX': 3}],
        scenarios_thorough=[{'SHAPE': 2, 'KIND': 0}, {'SHAPE': 3, 'KIND': 0}, {'SHAPE': 4, 'KIND': 0}, {'SHAPE': 2, 'KIND': 0, 'TYPE': 1},
                            {'SHAPE': 2, 'KIND': 1, 'NMAX': 256}, {'SHAPE': 3, 'KIND': 1, 'NMAX': 16}, {'SHAPE': 4, 'KIND': 1}],
-       timeout=600, thorough_override={'timeout': 2400},
+       timeout=900, thorough_override={'timeout': 3600},
        desc='blocked_range2d/3d/blocked_nd_range<3> split: exactly one dimension is cut, it was divisible, its parts are non-empty and adjacent, other dimensions untouched',
        bounds={'dims': 'every 64-bit begin<end and every grainsize>=1 per dimension (no restriction)', 'even split': 'full width for 2d, 3d, nd<3> (+2d<int>)',
                'proportional split': 'proportion (n-n/2, n/2) with 2<=n<=NMAX given per scenario (quick: 2d, nd n<=3; thorough: 2d n<=256, 3d n<=16, nd n<=2^32); the 1-d proportional lemma itself is range1d (n<=2^32)',
                'loops': 'dimension loops (<=3)'}),
-  dict(name='strided', unit='range', harness='h_strided.c', defines={'CH': 3}, cbmc=['--unwind', '5'],
-       scenarios=[{'TYPE': 0}, {'TYPE': 1}, {'TYPE': 2}], timeout=600,
-       desc='parallel_for(first,last,step,f): iteration count and index arithmetic of parallel_for_impl + parallel_for_body_wrapper',
-       bounds={'first,last,step': 'all values of size_t / int / long with step>0 (signed: last-first representable)', 'chunk': 'any [cb,ce) of the iteration space with <=3 elements'}),
-  dict(name='taskstep_simple', unit='loop0', harness='h_loop.c', defines={'PART': 0, 'ROOT': 0}, scenarios=[{'K': 1, 'P': 2}], timeout=900, cbmc=['--unwind', '8', '--object-bits', '12'],
-       desc='x', bounds={}),
-  dict(name='taskstep_auto', unit='loop1', harness='h_loop.c', defines={'PART': 1, 'ROOT': 0}, scenarios=[{'K': 1, 'P': 2}], timeout=900, cbmc=['--unwind', '8', '--object-bits', '12'],
-       desc='x', bounds={}),
-  dict(name='taskstep_static', unit='loop2', harness='h_loop.c', defines={'PART': 2, 'ROOT': 0}, scenarios=[{'K': 1, 'P': 2}], timeout=900, cbmc=['--unwind', '8', '--object-bits', '12'],
-       desc='x', bounds={}),
-  dict(name='taskstep_affinity', unit='loop3', harness='h_loop.c', defines={'PART': 3, 'ROOT': 0}, scenarios=[{'K': 1, 'P': 2}], timeout=900, cbmc=['--unwind', '8', '--object-bits', '12'],
-       desc='x', bounds={}),
-  dict(name='rvec', unit='rvec', harness='h_rvec.c', scenarios=[{'OP': 0, 'HEAD': h, 'SIZE': z} for h in (7,) for z in (1, 5)] + [{'OP': 1}, {'OP': 2}], timeout=900, cbmc=['--unwind', '10'],
-       desc='range_vector<Range,8> split_to_fill/pop_back/pop_front from an arbitrary valid ring state', bounds={}),
+  dict(name='strided', unit='range', harness='h_strided.c', defines={'CH': 3}, cbmc=['--unwind', '6'],
+       scenarios=[{'TYPE': 3, 'MODE': 1, 'CTX': 0}, {'TYPE': 3, 'MODE': 1, 'CTX': 1},
+                  {'TYPE': 0, 'MODE': 0, 'NIT': 2, 'CTX': 0}, {'TYPE': 1, 'MODE': 0, 'NIT': 2, 'CTX': 1},
+                  {'TYPE': 0, 'MODE': 1, 'CTX': 0, 'STEPFIX': '1'}, {'TYPE': 0, 'MODE': 1, 'CTX': 0, 'STEPFIX': '2'},
+                  {'TYPE': 0, 'MODE': 1, 'CTX': 0, 'STEPFIX': '0x100000001ul'}, {'TYPE': 0, 'MODE': 1, 'CTX': 1, 'STEPFIX': '0x8000000000000005ul'},
+                  {'TYPE': 1, 'MODE': 1, 'CTX': 0, 'STEPFIX': '1'}, {'TYPE': 1, 'MODE': 1, 'CTX': 1, 'STEPFIX': '0x40000001'},
+                  {'TYPE': 2, 'MODE': 1, 'CTX': 0, 'STEPFIX': '1'}],
+       timeout=1200,
+       desc='parallel_for(first,last,step,f): iteration count and index arithmetic of the real parallel_for_impl (both overload families) + parallel_for_body_wrapper',
+       bounds={'TYPE 3': 'user-defined 8-bit wrap-around Index class: every first,last,step (exhaustive in the width, symbolic divisor)',
+               'TYPE 0/1/2 (size_t/int/long) MODE 0': 'first,last,step all symbolic at full width, at most NIT=2 grid points in [first,last)',
+               'TYPE 0/1/2 MODE 1': 'first,last symbolic at full width, step concrete per scenario (1, 2, 2^32+1, 2^63+5, 2^30+1), any iteration count',
+               'chunk': 'any [cb,ce) of the iteration space with <=3 elements',
+               'not decided': 'symbolic 64-bit step with unbounded quotient (no verdict in 10 min even for a 4-bit step; also concrete step 3: ~200 s CPU without verdict)'}),
+  dict(name='strided_w16', unit='range_w16', harness='h_strided.c', defines={'CH': 3}, cbmc=['--unwind', '6'], tiers=T,
+       scenarios=[{'TYPE': 3, 'MODE': 1, 'CTX': 0}], timeout=3600,
+       desc='as strided TYPE 3 with a 16-bit wrap-around Index class', bounds={'first,last,step': 'all 16-bit values, step>0'}),
+  dict(name='rvec', unit='rvec', harness='h_rvec.c', cbmc=['--unwind', '10'], timeout=1200,
+       scenarios_quick=[{'OP': 0, 'HEAD': h, 'SIZE': z} for h in (0, 4, 7) for z in (1, 4, 8)] + [{'OP': 1}, {'OP': 2}],
+       scenarios_thorough=[{'OP': 0, 'HEAD': h, 'SIZE': z} for h in range(8) for z in range(1, 9)] + [{'OP': 1}, {'OP': 2}],
+       desc='range_vector<Range,8> split_to_fill / pop_back / pop_front / front / back from an arbitrary valid ring state',
+       bounds={'ring position': 'split_to_fill: head,size concrete per query (quick 9 of the 64 combinations incl. wrap-around, thorough all 64); pop_*: symbolic',
+               'ranges, grainsize': 'symbolic 64-bit, pieces adjacent and non-empty', 'depths, max_depth': 'symbolic 0..255'}),
+  _step(0, W, 1, 2, [{'ROOT': 0}, {'ROOT': 2}], Q),
+  _step(0, D, 3, 2, [{'ROOT': 0, 'GFIX': 1, 'BFIX': 0}, {'ROOT': 0, 'GFIX': 3, 'BFIX': 5}], Q),
+  _step(2, W, 1, 2, [{'ROOT': 0}, {'ROOT': 2}], Q),
+  _step(2, D, 3, 3, [{'ROOT': 0, 'GFIX': 1, 'BFIX': 0}, {'ROOT': 2, 'GFIX': 2, 'BFIX': 7}], Q),
+  dict(_step(1, W, 1, 2, [{'ROOT': 0}, {'ROOT': 2}], Q), scenarios_quick=[{'ROOT': 0}]),
+  _step(1, D, 2, 2, [{'ROOT': 0, 'GFIX': 1, 'BFIX': 0}], Q, timeout=1800),
+  _step(3, D, 1, 2, [{'ROOT': 0, 'GFIX': 1, 'BFIX': 0}, {'ROOT': 2, 'GFIX': 1, 'BFIX': 0}], Q, timeout=1800),
+  _step(3, D, 2, 2, [{'ROOT': 0, 'GFIX': 1, 'BFIX': 0}], T, timeout=3600),
+  # thorough: deeper trees, other concurrencies
+  _step(0, W, 2, 2, [{'ROOT': 0}], T, timeout=3600),
+  _step(0, D, 4, 2, [{'ROOT': 0, 'GFIX': 1, 'BFIX': 0}, {'ROOT': 2, 'GFIX': 2, 'BFIX': 3}], T, timeout=3600),
+  _step(2, W, 2, 3, [{'ROOT': 0}], T, timeout=3600),
+  _step(2, D, 3, 4, [{'ROOT': 0, 'GFIX': 1, 'BFIX': 0}, {'ROOT': 2, 'GFIX': 1, 'BFIX': 0}], T, timeout=3600),
+  _step(2, D, 3, 1, [{'ROOT': 2, 'GFIX': 1, 'BFIX': 0}], T, timeout=3600),
+  _step(1, D, 3, 2, [{'ROOT': 0, 'GFIX': 1, 'BFIX': 0}], T, timeout=3600),
+  _step(1, D, 2, 3, [{'ROOT': 2, 'GFIX': 1, 'BFIX': 0}, {'ROOT': 0, 'GFIX': 2, 'BFIX': 9}], T, timeout=3600),
+  _step(3, D, 2, 3, [{'ROOT': 0, 'GFIX': 1, 'BFIX': 0}, {'ROOT': 2, 'GFIX': 1, 'BFIX': 0}], T, timeout=3600),
+  _step(3, D, 2, 1, [{'ROOT': 2, 'GFIX': 1, 'BFIX': 0}], T, timeout=3600),
+  # whole loop (E-BAG), thorough only: the real parallel_for() run to completion over the task bag
+  dict(name='loop_simple', unit='loop_simple', harness='h_loop.c', defines={'PART': 0, 'ROOT': 1, 'K': 2, 'P': 2, 'NMAX': 4, 'GFIX': 1, 'BFIX': 0, 'MAXT': 5}, tiers=T,
+       scenarios=[{'ORDER': o} for o in ('0x1f', '0x0', '0x15', '0x0a')], timeout=3600, mem_gb=8, cbmc=_uw(0, 2, 2),
+       desc='whole loop, simple_partitioner: real parallel_for() over [0,n), n<=4 symbolic, grain 1; bag order concrete per query (newest/oldest pattern), executing slots symbolic: '
+            'every element exactly once, chunks legal, all tasks/tree nodes released, wait released exactly once after the last task',
+       bounds={'elements': '0..4', 'grainsize': 1, 'task order': '4 newest/oldest patterns', 'max_concurrency': 2}),
+  dict(name='loop_static', unit='loop_static', harness='h_loop.c', defines={'PART': 2, 'ROOT': 1, 'K': 2, 'P': 2, 'NMAX': 4, 'GFIX': 1, 'BFIX': 0, 'MAXT': 5}, tiers=T,
+       scenarios=[{'ORDER': o} for o in ('0x1f', '0x0')], timeout=3600, mem_gb=8, cbmc=_uw(2, 2, 2),
+       desc='whole loop, static_partitioner: as loop_simple', bounds={'elements': '0..4', 'grainsize': 1, 'task order': '2 patterns', 'max_concurrency': 2}),
 ]
-OUTSIDE = []
-STUBS = []
-ASSUMPTIONS = []
+MANIFEST = dict(
+  level_text='Bounded symbolic execution (clang-14 IR of the real headers -> C -> cbmc/SAT) of the code behind parallel_for: full-width lemmas for '
+             'blocked_range / blocked_range2d / 3d / nd_range splitting, the strided parallel_for index arithmetic, range_vector ring operations from an arbitrary ring state, '
+             'and a task step lemma for each of the four partitioners (one real start_for::execute from an arbitrary partition state satisfying an inductive invariant, '
+             'symbolic steal/affinity flags): the body chunks and the spawned subranges tile the task range exactly, non-empty and disjoint, only divisible ranges are split. '
+             'Exactly-once for whole loops of any size follows by induction over the task tree (paper argument on top of the solver-decided step and base case).',
+  level_note='Bounds per harness in evidence: task step covers ranges up to grainsize*2^K (K=1 at full symbolic width, K=2..4 with concrete begin/grain), max_concurrency 1..4 concrete; '
+             'strided arithmetic is decided for an 8/16-bit index type exhaustively and for size_t/int/long on two sub-families (<=2 iterations at full width; concrete steps); '
+             'whole-loop runs (thorough) only for simple/static partitioner with <=4 elements. parallel_for_each and parallel_invoke are not covered. '
+             'Tasks are atomic in the bag model (overlap of two task bodies is outside). Trusted: clang-14 IR, tools/ir2c.py (selftest differential on float/double code), cbmc.',
+)
+OUTSIDE = [
+  'parallel_for_each (feeder, forward/random-access blocks) and parallel_invoke: separate templates, not encoded',
+  'affinity_partitioner task step with fully symbolic 64-bit begin/end/grainsize (4.8 M variables, no verdict in 30 min): affinity is explored with concrete begin/grain only; the range arithmetic is the blocked_range code decided by range1d and by the wide task steps of the other three partitioners',
+  'whole-loop executions for auto_partitioner / affinity_partitioner (no verdict within 375 s CPU / 10 GB for 4 elements) and for more than 4 elements: covered only through the task step lemma + induction',
+  'task step for ranges larger than grainsize*2^K (K per harness) in ONE task; range_vector ring wrap-around inside work_balance is covered separately by rvec from arbitrary ring states',
+  'true overlap of two task bodies (tasks are atomic in the bag model); m_child_stolen / ref-count races belong to C01',
+  'parallel_for(first,last,step): symbolic 64-bit step with more than 2 iterations (solver gives no verdict); signed Index with last-first not representable (documented precondition)',
+  'the final, unused `k += step` of parallel_for_body_wrapper can overflow a signed Index (UB by the letter, value unused); not flagged by the translator (wrapping semantics)',
+  'cancellation / exceptions during the loop (property C03)',
+  'blocked_rangeNd proportional split of 2d/3d for proportions n > 256 / 16 (thorough bounds); the 1-d arithmetic for n <= 2^32 is range1d',
+]
+STUBS = [
+  'r1::allocate/deallocate: fresh heap object / free (double free and use-after-free are solver-checked)',
+  'r1::spawn(task[,slot]): task is put into the bag; static partitioner: slot id must be < max_concurrency',
+  'r1::execute_and_wait: runs the bag (ROOT=1) or only the root task (ROOT=2)',
+  'r1::execution_slot: symbolic slot < max_concurrency, fixed during one task execution; r1::max_concurrency: concrete P per query',
+  'r1::is_group_execution_cancelled: false (the property is about loops that complete normally)',
+  'r1::notify_waiters: counted; r1::initialize/destroy(task_group_context): no-ops; r1::cache_aligned_allocate: heap object',
+  'parallel_for(range, body, partitioner) inside parallel_for_impl (strided harness only): recorder that applies the real body wrapper to one harness-chosen chunk',
+]
+ASSUMPTIONS = [
+  'Value/Index requirements of the documentation: end-begin (last-first) is representable in a signed value type; grainsize >= 1; step > 0',
+  'partition invariant INV (proved inductive by the taskstep harnesses: established by the root constructors, ROOT=2, preserved for every spawned task): '
+  'static: 1<=divisor<=P, head<P, max_affinity=P; affinity: max_affinity=16P, head<16P, divisor<=16P and (divisor<=16 or divisor%16==0); auto: any state',
+  'non-root tasks have a tree_node parent with reference count 1 or 2 (what offer_work creates)',
+  'induction over the task tree: every spawned task is executed exactly once (property C01) - paper argument, not a solver query',
+]
